@@ -36,6 +36,9 @@ def cases(tier, seed):
             if fam == "lmc_multitask":
                 ops = [o for o in ops if o != "pred_batch"]
             yield {"family": fam, "seq": [rnd.choice(ops) for _ in range(L)], "mseed": rnd.randrange(1000)}
+    for fam in ("svgp_whitened", "svgp_unwhitened", "svgp_meanfield", "svgp_batch_decoupled", "natural"):
+        for seq in ([], ["pred"], ["train_step", "pred"]):
+            yield {"family": fam, "kind": "reset_uninitialised", "seq": seq, "mseed": rnd.randrange(1000)}
 
 
 class _FixedZModel(__import__("gpytorch").models.ApproximateGP):
@@ -204,6 +207,8 @@ def run_case(case, ctx):
 
     if case["family"] == "modellist":
         return _modellist(case, ctx)
+    if case.get("kind") == "reset_uninitialised":
+        return _reset_uninitialised(case, ctx)
     fam = _fams()[case["family"]](case["mseed"])
     state = {"fam": fam}
     m = fam.make()
@@ -354,6 +359,49 @@ def run_case(case, ctx):
                 except Exception as e:
                     ctx.fail("copy_independent_of_original", f"{mech} copy's objective raised after the original moved: {type(e).__name__}: {str(e)[:120]}", "raise", mech=mech, **kw)
     ctx.cell({"family": case["family"], "seq": case["seq"]}, nontrivial=True)
+
+
+def _reset_uninitialised(case, ctx):
+    """a variational model that has been used is reset to a checkpoint taken BEFORE its first call (initialisation flag 0):
+    its next call initialises q(u) exactly as a freshly constructed model loaded with the same checkpoint does"""
+    import copy
+
+    import torch
+
+    from vf import history as H
+
+    fam = _fams()[case["family"]](case["mseed"])
+    state = {"fam": fam}
+    A = fam.build()
+    sdA = copy.deepcopy(A.state_dict())
+    B = fam.make()
+    for op in case["seq"]:
+        try:
+            H.apply_op(case["family"], B, op, state)
+        except Exception:
+            ctx.reject("operation raised")
+            return
+    B.load_state_dict(copy.deepcopy(sdA))
+    B.eval()
+    Cm = fam.build()
+    Cm.load_state_dict(copy.deepcopy(sdA))
+    Cm.eval()
+    try:
+        torch.manual_seed(77)
+        ob = _observe(fam, B)
+        torch.manual_seed(77)
+        oc = _observe(fam, Cm)
+    except Exception as e:
+        ctx.fail("state_dict_roundtrip", f"prediction after a reset to the un-initialised checkpoint raised {type(e).__name__}: {str(e)[:140]}", "raise", exc=type(e).__name__, family=case["family"])
+        return
+    _compare(ctx, "state_dict_roundtrip", fam, oc, ob, (1e-9, 1e-9), family=case["family"], reset_to_uninitialised=True)
+    flags_b = [int(mod.variational_params_initialized) for mod in B.modules() if hasattr(mod, "variational_params_initialized")]
+    flags_c = [int(mod.variational_params_initialized) for mod in Cm.modules() if hasattr(mod, "variational_params_initialized")]
+    ctx.expect("initialisation_flags_carried", flags_b == flags_c, f"initialisation flags after the first call: reset model {flags_b}, fresh model {flags_c}", family=case["family"])
+    sdb, sdc = B.state_dict(), Cm.state_dict()
+    same = all(torch.allclose(sdb[k_], sdc[k_], atol=1e-10) for k_ in sdb if torch.is_tensor(sdb[k_]) and sdb[k_].dtype.is_floating_point)
+    ctx.expect("initialisation_flags_carried", same, "variational parameters after the first call differ between the reset model and a fresh model", family=case["family"])
+    ctx.cell({"family": case["family"], "kind": "reset_uninitialised", "seq": case["seq"]}, nontrivial=True)
 
 
 def _modellist(case, ctx):
